@@ -134,6 +134,9 @@ def has_safe_repr(value: t.Any) -> bool:
     if type(value) is float and (value != value or value in (_inf, -_inf)):
         return False
 
+    if type(value) is complex:
+        return has_safe_repr(value.real) and has_safe_repr(value.imag)
+
     if type(value) in {bool, int, float, complex, range, str, Markup}:
         return True
 
